@@ -15,9 +15,9 @@ Proof.
   apply orb_false_iff in Ebad. destruct Ebad as [E0 E7]. apply Z.eqb_neq in E0, E7.
   constructor; [split; assumption|].
   destruct m as [|d].
-  - destruct (classify c); try discriminate; eapply IH; eauto.
+  - destruct (classify_fx true c); try discriminate; eapply IH; eauto.
   - destruct (next_arg args) as [a args']. apply andb_true_iff in H. destruct H as [_ H].
-    destruct (classify c); try discriminate;
+    destruct (classify_fx true c); try discriminate;
       repeat (apply andb_true_iff in H; destruct H as [_ H]); eapply IH; eauto.
 Qed.
 
@@ -94,15 +94,39 @@ Proof.
     rewrite takeZ_nonpos by lia. reflexivity.
 Qed.
 
-(* non-vacuity: a format with flags, width, precision, '*', every length modifier, strings, %c, %p, %% is covered *)
+(* non-vacuity: a format with flags, width, precision, '*' (one of them a NEGATIVE precision), every length modifier
+   including h and hh, strings, %c, %p, %% is covered *)
 Definition demo_fmt : list Z :=
-  [37;45;43;35;48;32;39;49;50;46;53;108;108;100;124;37;122;120;124;37;106;117;124;37;116;105;32;37;42;100;32;37;46;51;115;32;37;115;32;37;99;37;37;32;37;112;32;37;46;42;102;33].
-  (* "%-+#0 '12.5lld|%zx|%ju|%ti %*d %.3s %s %c%% %p %.*f!" *)
+  [37;45;43;35;48;32;39;49;50;46;53;108;108;100;124;37;122;120;124;37;106;117;124;37;116;105;32;37;42;100;32;37;46;51;115;32;37;115;32;37;99;37;37;32;37;112;32;37;46;42;102;33;37;46;42;100;124;37;104;100;124;37;104;104;117].
+  (* "%-+#0 '12.5lld|%zx|%ju|%ti %*d %.3s %s %c%% %p %.*f!%.*d|%hd|%hhu" *)
 Definition demo_args : list arg :=
   [ALLong (-123456789012); ALLong 18446744073709551615; ALLong 7; ALLong (-7); AInt 8; AInt 96;
-   AStr [97;98;99;100;101]; ANull; AInt 65; APtr 4096; AInt 2; ADouble 4612811918334230528].
+   AStr [97;98;99;100;101]; ANull; AInt 65; APtr 4096; AInt 2; ADouble 4612811918334230528;
+   AInt (-1); AInt 5; AInt (-3); AInt 200].
 
 Lemma demo_covered :
   wf_go demo_fmt PLit demo_args = true /\
-  zlen demo_fmt + 1 + zlen (ser_data demo_fmt PLit demo_args) = 125.
+  zlen demo_fmt + 1 + zlen (ser_data demo_fmt PLit demo_args) = 154.
 Proof. vm_compute. split; reflexivity. Qed.
+
+(* what the two scanners do with a character they do not know inside a directive (L, q, $, n, m ...; as found also h):
+   the serializer leaves the directive WITHOUT taking an argument and goes on scanning after that character; the decoder
+   drops what it had rebuilt of the directive and prints the character and what follows as literal text *)
+Lemma unknown_char_serializer : forall fx max c f' tl tll st,
+  classify_fx fx c = COther -> ser_go fx max (c :: f') (SDir tl tll) st = ser_go fx max f' SScan st.
+Proof. intros fx max c f' tl tll st H. cbn [ser_go]. rewrite H. reflexivity. Qed.
+
+Lemma unknown_char_decoder : forall snp rec blen n c f' mini fpos tl tll st,
+  classify_fx true c = COther -> fpos + 2 <= LF_MINI_FORMAT_STR_LEN ->
+  des_go true snp rec blen n (c :: f') (DDir mini fpos tl tll) st
+  = des_top true n st (fun st' => des_go true snp rec blen n f' (DScan [c]) st').
+Proof.
+  intros snp rec blen n c f' mini fpos tl tll st H Hf. cbn [des_go andb].
+  replace (LF_MINI_FORMAT_STR_LEN <? fpos + 2) with false by (symmetry; apply Z.ltb_ge; lia).
+  rewrite H. reflexivity.
+Qed.
+
+Lemma unknown_chars : classify_fx true 76 = COther /\ classify_fx true 113 = COther /\ classify_fx true 36 = COther /\
+                      classify_fx true 110 = COther /\ classify_fx true 109 = COther /\
+                      classify_fx false 104 = COther /\ classify_fx true 104 = CFlag.
+Proof. vm_compute. repeat split; reflexivity. Qed.
